@@ -4,6 +4,7 @@ from . import register
 from .common import *
 from gen import parse as G
 from gen.common import rng_for
+import check as C
 
 TCHAR = set(b"!#$%&'*+-.^_`|~ABCDEFGHIJKLMNOPQRSTUVWXYZabcdefghijklmnopqrstuvwxyz0123456789")
 ALPHA = set(b"ABCDEFGHIJKLMNOPQRSTUVWXYZabcdefghijklmnopqrstuvwxyz")
@@ -192,6 +193,62 @@ def check_prefix_chain(dom, base, answers):
     return None
 
 
+def run_client_segmentations(o, ctx, t, r):
+    """C03, client side: the same response stream cut in different ways must give Client::exchange the same result
+    (CLI domain: scripted origin server; kmodel = the read_response loop model)."""
+    streams = [
+        b"HTTP/1.1 200 OK\r\nContent-Length: 5\r\n\r\nhello",
+        b"HTTP/1.1 404 Not Found\r\nA: b\r\nContent-Length: 0\r\n\r\n",
+        b"HTTP/1.0 200 OK\r\nX: y\r\n\r\nbody until close",
+        b"HTTP/1.1 200 OK\r\nTransfer-Encoding: chunked\r\n\r\n5\r\nhello\r\n0\r\n\r\n",
+        b"HTTP/1.1 204 \r\n\r\n",
+        b"HTTP/1.1 200 OK\r\nBig: " + b"v" * 300 + b"\r\nContent-Length: 2\r\n\r\nok",
+        b"HTTP/1.1 2000 OK\r\n\r\n",
+        b"HTTP/1.1 200 OK\r\nbad header\r\n\r\n",
+    ]
+    for _ in range(2 if t == "quick" else 30):
+        streams.append(G.gen_wf_response(r)[:600])
+    lines, groups = [], []
+    for st in streams:
+        he = st.find(b"\r\n\r\n")
+        cutsets = [[]]
+        if he >= 0:
+            for c in range(max(1, he - 2), min(len(st), he + 6)):   # every cut around the blank line
+                cutsets.append([c])
+        for _ in range(4 if t == "quick" else 12):
+            k = r.choice([1, 2, 3, 5])
+            cutsets.append(sorted(set(r.randrange(1, max(2, len(st))) for _ in range(k))))
+        if len(st) < 80:
+            cutsets.append(list(range(1, len(st))))
+        start = len(lines)
+        for cs in cutsets:
+            segs, p = [], 0
+            for c in cs + [len(st)]:
+                if c > p:
+                    segs.append(st[p:c]); p = c
+            lines.append("CLI segs=%s close=1" % ",".join(hx(x) for x in segs))
+        groups.append((st, start, len(lines)))
+    impl = C.run_sharded(ctx["kimpl"], lines, shards=min(C.NCPU, 16))
+    model = C.run_sharded(ctx["kmodel"], lines) if ctx.get("have_model") else None
+    for st, a, b in groups:
+        ref = impl[a]
+        for i in range(a, b):
+            o.evaluations += 1
+            o.count("client-seg:" + impl[i].split()[0] + (" " + impl[i].split()[1] if impl[i].startswith("ERR") else ""))
+            if b - a > 1:
+                o.nontrivial.add(lines[i])
+            if impl[i] != ref and len(o.violations) < 50:
+                o.violations.append({"case": lines[i], "cases": [lines[a], lines[i]], "impl": impl[i], "expected": ref,
+                                     "why": "client outcome depends on how the response stream is segmented: %s vs %s (one segment)" % (impl[i][:60], ref[:60])})
+            if model is not None:
+                mi = model[i]
+                proj = " ".join(w for w in impl[i].split() if not w.startswith(("body=", "bodyerr=", "cc=")))
+                projm = " ".join(w for w in mi.split() if not w.startswith("cc="))
+                if proj != projm and len(o.mismatches) < 20:
+                    o.mismatches.append({"case": lines[i], "impl": impl[i], "model": mi})
+    o.extra["client_segmentation_groups"] = len(groups)
+
+
 def tags_parse(c, a):
     return c.split()[0] + ":" + (" ".join(a.split()[:2]) if a.startswith("ERR") else a.split()[0] if a else "?")
 
@@ -242,6 +299,7 @@ def run_parse(pid, oracle):
                 ls += [f"{dom} {hx(b[:k])}" for k in range(len(b) + 1)]
             impl, model = diff_run(o, ctx, ls, nontrivial=nontriv, tags=lambda c, a: "prefix:" + a.split()[0])
             o.extra["prefix_chains"] = len(bases)
+            run_client_segmentations(o, ctx, t, r)
             for dom, b, st in idx:
                 why = check_prefix_chain(dom, b, impl[st:st + len(b) + 1])
                 if why and len(o.violations) < 50:
@@ -261,9 +319,10 @@ register("C02", lean=["Khttp.Props.C02"], run=run_parse("C02", None), rule=RULE 
          assumptions=COMMON_ASSUME + ["absolute-form restricted to scheme://authority path-abempty [?query]; pct-encoding checked as '%' anywhere"],
          explanation="Theorem C02_accepts_exactly: for every RfcHead satisfying the RFC grammar predicate Wf and any tail, the model accepts render(h)++tail and reports exactly "
                      "method, target, path/query split, version, all field lines via the collection, off = |render h|. Oracle: generator-side expected decoding vs real code.")
-register("C03", lean=["Khttp.Props.C03"], run=run_parse("C03", None), rule=RULE + " Plus full prefix chains (every prefix length 0..n) of corpus, well-formed and mutated heads.",
+register("C03", lean=["Khttp.Props.C03", "Khttp.Props.C03Loop"], run=run_parse("C03", None), rule=RULE + " Plus full prefix chains (every prefix length 0..n) of corpus, well-formed and mutated heads.",
          assumptions=COMMON_ASSUME + ["TCP itself is outside the model; server/client read loops are covered by the CONN domain (C07/C10 checks) and Props/C03 loop theorems"],
-         explanation="Theorems: accept-stability, reject-stability and 'proper prefix of an accepted head is incomplete' for both parsers. Oracle: verdict monotonicity over every prefix chain on the real code.")
+         explanation="Theorems: accept-stability, reject-stability and 'proper prefix of an accepted head is incomplete' for both parsers. Plus C03Loop: the server's read_request loop and the client's read_response loop give the same head, body start and remaining bytes (or the same error) for every segmentation of the same stream. "
+                     "Oracle: verdict monotonicity over every prefix chain on the real code; Client::exchange against a scripted origin server under many segmentations of the same response stream (cuts at every position around the blank line).")
 register("C04", lean=["Khttp.Props.C04"], run=run_parse("C04", oracle_c04), rule=RULE, assumptions=COMMON_ASSUME,
          explanation="Theorems: C04_accepted_is_rendered (consumed bytes = render of a WfStrict head; reported parts are that head's parts, all lines handed to the collection in order) and "
                      "C04_render_injective (unique decoding). Oracle: independent strict tokenizer on every accepted input.")
